@@ -129,7 +129,7 @@ func c05Programs(ops []string, maxLen int, ncols int, f func(prog string, size i
 			}
 			parts = append(parts, op)
 		}
-		for _, ret := range []string{"", "!boom", "!EOF", "!UEOF", "!WARNING", "!NOTICE", "!INFO", "!LOG", "!DEBUG", "!FATAL", "!PANIC"} {
+		for _, ret := range []string{"", "!boom", "!EOF", "!UEOF", "!WARNING", "!NOTICE", "!INFO", "!LOG", "!DEBUG", "!FATAL", "!PANIC", "!JOIN"} {
 			if ret != "" && ret != "!boom" && (len(sh) > 2 || (len(sh) > 1 && ret != "!EOF" && ret != "!UEOF")) {
 				continue // errors wrapping io.EOF / io.ErrUnexpectedEOF: behind every program of <= 2 operations
 			}
